@@ -112,6 +112,15 @@ PROPS = {
                         "built-in types and the standard scalars are left out of the model's schemas"],
         "partial": "'conforming => accepted' is decided per generated case (no formal grammar of the documented syntax); 'accepted => no planning or lookup error' is a theorem only up to the lookup table (C09_accepted_has_lookup_entries) and is otherwise exercised by serving accepted federations with random valid queries",
     },
+    "C11": {
+        "harness": [{"name": "c11"}],
+        "n_quick": 60, "n_thorough": 1500, "known_for": ["C11"],
+        "race": True,
+        "assumptions": ["sync.RWMutex behaves as the model's lock (a writer excludes readers and waits for them; readers share)",
+                        "the translator gen/main.go reads lock scopes lexically (Lock ... Unlock within one function body, defers run at exit)",
+                        "'old' and 'new' answers are those of fresh gateway instances of either generation over the same data"],
+        "partial": "data-race freedom is decided only in the thorough tier, by running this harness under the race detector (not a theorem); absence of deadlock is observed (timeouts), not proved; the Go scheduler is not controlled beyond slowed polls and requests parked in InterceptRequest",
+    },
     "C12": {
         "harness": [{"name": "c12"}],
         "n_quick": 120, "n_thorough": 3000, "known_for": ["C01", "C15", "C14", "C03", "C05"],
@@ -220,6 +229,11 @@ META = {
         "text": "Model of validate.go (every rule function, ValidateSchema's order, the visited-set recursion over namespace links) in Model/Validate.v. Theorems, for every schema: C09_accepted_obeys_rules (whatever is accepted satisfies each listed rule: root names, the exact shape of Query.service and Service, id: ID! on every boundary object, every marked lookup well typed in single or array form and exactly one per boundary object, namespace types only inside namespaces or roots, every namespace link reachable from a root non-null at any depth incl. cyclic namespaces - a DFS closure proof, validity after merge), C09_accepted_has_lookup_entries (the executor's lookup table then has an entry for every boundary type the service declares), C09_legacy_syntax_refuted (the former Node syntax is accepted and yields an empty lookup table: known finding). Tie on every run: service schemas of random federations x 41 single-rule mutations at random positions (AST level, reprinted and reloaded), verdict and failing stage of the real ValidateSchema vs the model; oracles: every rule-breaking mutant rejected with an error (never a panic), every conforming variant accepted, accepted federations polled and served with random valid queries without planning/lookup errors.",
         "note": "Three genuine defects found while modelling and repaired (fix: commits): nil Query dereference, unbounded recursion on cyclic namespaces, lookups unchecked when no boundary type is declared (then Arguments[0] panics in buildBoundaryFieldsMap). 'Follows the documented syntax' has no formal definition: the generator's conforming schemas stand for it.",
         "technique": "Coq model + proofs (case analysis per rule, counting lemma for 'exactly one', DFS-closure induction on fuel) + refutation witness; differential correspondence on mutated schemas; serve-and-query oracle",
+    },
+    "C11": {
+        "text": "Model/Refresh.v: the locking protocol of ExecutableSchema as a transition system (queries take the read lock, read the four published tables at arbitrary later steps, release; the refresher replaces the service map without a lock and writes the four tables inside the write lock). Theorem C11_tables_from_one_generation: for every schedule the lock admits, all table generations one query reads are equal (invariant over steps, induction over the schedule). Theorem C11_source_follows_protocol is about facts REGENERATED from /repo's source on every run by the translator gen/main.go (go/ast): every write of a published table lies inside mutex.Lock and every read of one in ExecuteQuery inside mutex.RLock; moving one out breaks the theorem. C11_service_map_outside_lock_refuted: the service map write and the Schema() read are outside the lock (from the same regenerated facts), and a schedule mixes table generation 0 with service map generation 1. Behavioural tie on every run: 4-5 requests run against one gateway while a service's schema changes and is re-polled, while the service list is replaced with slowed polls, and with the whole swap placed between validation and execution of half the requests (blocking InterceptRequest); each response must be the old generation's answer, the new one's, or an error-only response; no internal error, no hang; requests that take the read lock after the swap must not answer from the old generation (the model's prediction).",
+        "note": "Two known findings (both make a root field silently null): the service-list window and the validate/execute gap. Thorough tier runs under -race.",
+        "technique": "Coq transition-system invariant proof + source-to-Coq translator for the lock scopes + behavioural correspondence around refreshes; race detector (thorough)",
     },
     "C12": {
         "text": "Theorem C12_isolation_frame_partial: if requests work on pairwise disjoint copies and every in-place rewrite of a request lands in its own copy, then for every interleaving of all requests' rewrites each request reads - in its copy, in the parsed-query cache, in the merged schema - exactly what it reads alone, and shared cells never change (a frame argument over an abstract heap; C12_without_copy_refuted shows the copy is necessary). The code's side of the assumption is decided behaviourally on every run: batches of 3-6 requests (same document with other variables incl. @skip/@include conditions, same document under other permission sets, other documents, duplicates; each with its own forwarded headers) are served alone by fresh instances, then twice in sequence and twice concurrently by ONE instance, with and without an LRU parsed-query cache; every response (data bytes, error multiset) and every set of downstream calls must equal the request's alone, every downstream call must carry exactly its request's forwarded headers, the merged schema's SDL must not change; the concurrent observations also go through the whole-gateway model correspondence (check_e2e_case).",
